@@ -134,6 +134,12 @@ class Runner:
         """-> (status, failures) status in pre-false / ok / fail"""
         env = dict(self.env)
         env.update(kwargs)
+        recv = None
+        if self.con.receiver:
+            import fparser.common.readfortran as _rf
+            import fparser.common.sourceinfo as _si
+            recv = eval(self.con.receiver, dict(vars(_rf), FortranFormat=_si.FortranFormat))
+            env["self"] = recv
         try:
             for k, (code, olds) in self.req.items():
                 if not eval(code, env):
@@ -141,6 +147,11 @@ class Runner:
         except Exception:
             return "pre-false", []
         pre = copy.deepcopy(kwargs)
+        if recv is not None:
+            try:
+                pre["self"] = copy.deepcopy(recv)
+            except Exception:
+                pre["self"] = recv
         failures = []
         observed = {}
         # model conformance: every assumed axiom of the contract must hold on the real library
@@ -152,7 +163,7 @@ class Runner:
             if not ok:
                 failures.append(("assume." + k, "assumed axiom is false on CPython"))
         try:
-            result = self.fn(**copy.deepcopy(kwargs))
+            result = self.fn(recv, **copy.deepcopy(kwargs)) if recv is not None else self.fn(**copy.deepcopy(kwargs))
             raised = None
         except BaseException as e:  # noqa
             result, raised = None, e
